@@ -245,6 +245,7 @@ func init() {
 		rule("R13-http-code", ruleHttpCode).
 		rule("R13-front-end-siblings", ruleFrontEndSiblings).
 		rule("R12-unwrap-nil", ruleUnwrapNil).
+		rule("R13-error-rendered", ruleErrorRendered).
 		rule("R10-http-reply-once", ruleHttpReplyOnce)
 }
 
